@@ -267,7 +267,19 @@ func hangShape(c *Call) string {
 	if c.Kind == "tpl" {
 		return templateFeature(c.Tpl)
 	}
-	return c.Fn + ":" + tupleShape(c.Args)
+	shape := c.Fn + ":" + tupleShape(c.Args)
+	if c.Fn == "op:^" && len(c.Args) == 2 {
+		// negative and fractional powers cost differently from positive whole ones: never skipped behind them
+		if p, ok := approxNumber(c.Args[1]); ok {
+			if p.IsNegative() {
+				shape += ":negative-power"
+			}
+			if !p.IsInteger() {
+				shape += ":fractional-power"
+			}
+		}
+	}
+	return shape
 }
 
 var wrapperRejection = regexp.MustCompile(`^error calling [^:]+: (need \d+ argument|need at least \d+ argument|need \d+ to \d+ argument|unable to convert |takes exactly three arguments|takes one or three arguments)`)
